@@ -160,7 +160,7 @@ class C11(Check):
 
     def simplify(self, case):
         ops = case.get("ops") or []
-        if len(ops) == 1 and len(ops[0].get("pos", [])) > 1:
+        if len(ops) == 1 and isinstance(ops[0], dict) and len(ops[0].get("pos", [])) > 1:
             o = ops[0]
             for k in range(len(o["pos"])):
                 yield dict(case, ops=[{"pos": o["pos"][:k] + o["pos"][k + 1:], "xor": o["xor"][:k] + o["xor"][k + 1:], "adv": o.get("adv", "-")}])
